@@ -268,10 +268,19 @@ func r3ChildAnswer(w *fWorld, spec *r3Spec, mode string) (out []string) {
 		out = append(out, "LAW "+strconv.Quote("a reported rule does not match by its own Match (new rule object, same process): "+law))
 	}
 	if q.kind == "all" {
-		have := fSetOf(fKeysOfNet(obj.([]*rules.NetworkRule)))
+		// by rule TEXT: the lookup tables keep one rule per text (the sequential table refuses a second rule with the
+		// text of one it holds, whatever its list), and C01 compares texts, not list ids (DESIGN §6)
+		have := map[string]bool{}
+		for _, f := range obj.([]*rules.NetworkRule) {
+			have[f.Text()] = true
+		}
 		var missing []string
 		for k := range t.oracleNet(q.web) {
-			if !have[k] {
+			text := k
+			if i := strings.IndexByte(k, ':'); i >= 0 {
+				text = k[i+1:]
+			}
+			if !have[text] {
 				missing = append(missing, k)
 			}
 		}
@@ -283,6 +292,28 @@ func r3ChildAnswer(w *fWorld, spec *r3Spec, mode string) (out []string) {
 	}
 
 	return out
+}
+
+// r3TextSet reduces a " | "-joined set of `listid:text` keys to the sorted set of rule TEXTS (the lookup tables keep
+// one rule per text, whatever its list; C01 compares texts: DESIGN §6).
+func r3TextSet(keys string) string {
+	if keys == "" {
+		return ""
+	}
+	set := map[string]bool{}
+	for _, k := range strings.Split(keys, " | ") {
+		if i := strings.IndexByte(k, ':'); i >= 0 {
+			k = k[i+1:]
+		}
+		set[k] = true
+	}
+	out := make([]string, 0, len(set))
+	for k := range set {
+		out = append(out, k)
+	}
+	sort.Strings(out)
+
+	return strings.Join(out, " | ")
 }
 
 type r3ChildResult struct {
@@ -425,7 +456,7 @@ func r3GenFresh(r *rng, n int, w *bufio.Writer) {
 			if rr, ok := byIdx[idx]["r"]; ok {
 				if rr.err != "" {
 					note("query %d %s: %s", k, q, rr.err)
-				} else if rr.lines["ORACLE"] != e.lines["SET"] {
+				} else if r3TextSet(rr.lines["ORACLE"]) != r3TextSet(e.lines["SET"]) {
 					note("query %d %s: MatchAll in a new process reports {%s}; the rules whose own Match holds, evaluated from the last rule to the first in another new process: {%s}",
 						k, q, e.lines["SET"], rr.lines["ORACLE"])
 				}
